@@ -147,7 +147,8 @@ pub fn emit(out: &mut Out, prop: u32, case: &OCase) {
     let key_line = |t: &TooDee<u32>| -> Vec<u32> {
         if let TOp::Sort(var, line) = &case.op {
             let (x0, y0, nc, nr) = if case.kind == 0 { (0, 0, c, r) } else {
-                let (a, b) = (e.0 - s.0, e.1 - s.1); if a == 0 || b == 0 { (0, 0, 0, 0) } else { (s.0, s.1, a, b) } };
+                let o = if case.kind == 4 { 1 } else { 0 };
+                let (a, b) = (e.0 - s.0, e.1 - s.1); if a == 0 || b == 0 { (0, 0, 0, 0) } else { (s.0 + o, s.1 + o, a, b) } };
             let l = *line as usize;
             if *var >= 6 { if l < nc { (0..nr).map(|y| t[(x0 + l, y0 + y)]).collect() } else { vec![] } }
             else if l < nr { (0..nc).map(|x| t[(x0 + x, y0 + l)]).collect() } else { vec![] }
@@ -157,6 +158,10 @@ pub fn emit(out: &mut Out, prop: u32, case: &OCase) {
     let ok = catch_unwind(AssertUnwindSafe(|| match case.kind {
         0 => apply(&mut t, &case.op, base, &mut extra),
         2 => { let mut v = t.view_mut(s, e); apply(&mut v, &case.op, base, &mut extra) }
+        // nested mutable windows: the window is taken from an outer mutable view that is
+        // narrower than the parent (kind 4: off the top-left edges, kind 5: off the bottom-right)
+        4 => { let mut o = t.view_mut((1, 1), (c, r)); let mut v = o.view_mut(s, e); apply(&mut v, &case.op, base, &mut extra) }
+        5 => { let mut o = t.view_mut((0, 0), (c - 1, r - 1)); let mut v = o.view_mut(s, e); apply(&mut v, &case.op, base, &mut extra) }
         _ => { let mut v = Third(t.view_mut(s, e)); apply(&mut v, &case.op, base, &mut extra) }
     })).is_ok();
     let mut obs = vec![ok as u64];
@@ -207,7 +212,11 @@ pub fn receivers(smax: u64, parents: &[(u64, u64)], kinds: &[u64]) -> Vec<Recv> 
         for s0 in 0..=pc { for e0 in s0..=pc { for s1 in 0..=pr { for e1 in s1..=pr {
             let (mut nc, mut nr) = (e0 - s0, e1 - s1);
             if nc == 0 || nr == 0 { nc = 0; nr = 0; }
-            for &k in kinds { if k != 0 { v.push(Recv { kind: k, c: pc, r: pr, win: (s0, s1, e0, e1), nc, nr }); } }
+            for &k in kinds {
+                if k == 0 { continue; }
+                if (k == 4 || k == 5) && (e0 > pc - 1 || e1 > pr - 1) { continue; }
+                v.push(Recv { kind: k, c: pc, r: pr, win: (s0, s1, e0, e1), nc, nr });
+            }
         } } } }
     }
     v
@@ -365,9 +374,10 @@ pub fn gen_sort(out: &mut Out, prop: u32, tier: &str, _rng: &mut Rng) {
 /// C04: every mutating operation on every window position of a parent
 pub fn gen_c04(out: &mut Out, tier: &str, rng: &mut Rng) {
     let parents: Vec<(u64, u64)> = if tier == "quick" { vec![(4, 4), (5, 2)] } else { vec![(5, 5), (6, 3), (2, 6)] };
-    for rc in receivers(0, &parents, &[2]) {
+    for rc in receivers(0, &parents, &[2, 4, 5]) {
         let (nc, nr) = (rc.nc, rc.nr);
         let n = nc * nr;
+        let org = if rc.kind == 4 { 1 } else { 0 };
         let src = |n: u64| -> Vec<u32> { (0..n as u32).map(|i| 5000 + i).collect() };
         let mut ops = vec![TOp::Fill(9), TOp::FlipRows, TOp::FlipCols,
             TOp::CopyFromSlice(false, src(n)), TOp::CopyFromSlice(true, src(n)),
@@ -390,12 +400,12 @@ pub fn gen_c04(out: &mut Out, tier: &str, rng: &mut Rng) {
             for line in 0..lines {
                 let mut data = plain(rc.c, rc.r);
                 for pos in 0..len {
-                    let (cx, cy) = if is_col { (rc.win.0 + line, rc.win.1 + pos) } else { (rc.win.0 + pos, rc.win.1 + line) };
+                    let (cx, cy) = if is_col { (org + rc.win.0 + line, org + rc.win.1 + pos) } else { (org + rc.win.0 + pos, org + rc.win.1 + line) };
                     let k = (pos * 2 + line + var) % 3;
                     let val = if matches!(var, 4 | 5 | 10) { 100_000 + ((k * 7 + (pos * 3) % 5) * 1024) as u32 + pos as u32 } else { 100_000 + (k * 1024) as u32 + pos as u32 };
                     data[(cy * rc.c + cx) as usize] = val;
                 }
-                emit(out, 4, &OCase { kind: 2, c: rc.c, r: rc.r, win: rc.win, data, op: TOp::Sort(var, line) });
+                emit(out, 4, &OCase { kind: rc.kind, c: rc.c, r: rc.r, win: rc.win, data, op: TOp::Sort(var, line) });
             }
         }
     }
